@@ -153,12 +153,12 @@ func (r *Reconciler) Reconcile(ctx context.Context, req reconcile.Request) (reco
 		return reconcile.Result{}, errors.Wrap(err, errListRevs)
 	}
 
-	var latestRev, existingRev int64
-
-	if lr := v1.LatestRevision(comp, rl.Items); lr != nil {
-		latestRev = lr.Spec.Revision
-	}
-
+	// Take control of all revisions of this Composition before determining
+	// the latest revision: LatestRevision only considers revisions that are
+	// controlled by the Composition. If we determined the latest revision
+	// first, revisions that lost their owner references would be ignored and
+	// we could hand out a revision number that is already taken, or even
+	// lower the number of the current revision.
 	for i := range rl.Items {
 		rev := &rl.Items[i]
 
@@ -180,6 +180,16 @@ func (r *Reconciler) Reconcile(ctx context.Context, req reconcile.Request) (reco
 				return reconcile.Result{}, errors.Wrap(err, errOwnRev)
 			}
 		}
+	}
+
+	var latestRev, existingRev int64
+
+	if lr := v1.LatestRevision(comp, rl.Items); lr != nil {
+		latestRev = lr.Spec.Revision
+	}
+
+	for i := range rl.Items {
+		rev := &rl.Items[i]
 
 		// This revision does not match our current Composition.
 		if rev.GetLabels()[v1.LabelCompositionHash] != currentHash[:63] {
